@@ -136,6 +136,16 @@ func shapeScalars(e *env, shape string, n int, c uint64) []*big.Int {
 		case "top-carry": // all-ones patterns: every digit > 2^(c-1) so carries ripple into the last window
 			sc[i] = new(big.Int).Sub(new(big.Int).Lsh(one, uint(r.BitLen()-1-e.rng.Intn(3))), big.NewInt(int64(1+e.rng.Intn(3))))
 			sc[i].Mod(sc[i], r)
+		case "top-only": // only the last window is non-zero, over its whole range (it may be wider than c bits): the last
+			// chunk is the only one with work (overweight) and needs the buckets of the last window size
+			shift := uint(c) * uint((r.BitLen()+int(c)-1)/int(c)-1)
+			top := new(big.Int).Rsh(r, shift)
+			t := new(big.Int).Sub(top, big.NewInt(int64(e.rng.Intn(64)))) // near the top of the range
+			if i%4 == 3 || t.Sign() <= 0 {
+				t = new(big.Int).Add(e.rng.BigBelow(top), one)
+			}
+			sc[i] = new(big.Int).Lsh(t, shift)
+			sc[i].Mod(sc[i], r)
 		case "half": // digits exactly 2^(c-1) boundary
 			v := new(big.Int)
 			for k := 0; k*int(c) < r.BitLen()-1; k++ {
@@ -350,8 +360,8 @@ func runGroup(c *mon.Ctx, g *groups.Group) {
 		nInner = 700
 	}
 	for _, cw := range g.MSMWindows {
-		for _, ss := range []string{"random", "small", "top-carry", "half", "single-digit"} {
-			if (race || !c.Thorough()) && ss != "random" && (int(cw)+len(ss))%3 != 0 {
+		for _, ss := range []string{"random", "small", "top-carry", "half", "single-digit", "top-only"} {
+			if (race || !c.Thorough()) && ss != "random" && ss != "top-only" && (int(cw)+len(ss))%3 != 0 {
 				continue
 			}
 			for _, ps := range []string{"distinct", "pairs"} {
